@@ -46,16 +46,6 @@ def gen_problem(rng, tier="quick", **over):
                 hi = max(hi, lo + 0.5)
             limits.append([lo, hi])
             start.append(round(rng.uniform(lo, hi), 3) if rng.random() < 0.85 else rng.choice([lo, hi]))
-    intlim = rng.random() < 0.1
-    if intlim:
-        # every knob limited, every limit written as a plain integer (limits=(1, 5)), weights not 1: the limits reach
-        # the solver divided by the weights, which are not integers any more
-        limits, start = [], []
-        for j in range(nk):
-            lo = rng.choice([-3, -2, -1, 0, 1, 2])
-            hi = lo + rng.choice([1, 2, 4])
-            limits.append([lo, hi])
-            start.append(round(rng.uniform(lo, hi), 3))
     # target values
     from .world import plant_eval
     where = rng.random()
@@ -114,12 +104,6 @@ def gen_problem(rng, tier="quick", **over):
         "opts": {"n_steps_max": rng.choice([3, 5, 10, 20]), "restore_if_fail": True, "assert_within_tol": True,
                  "check_limits": True, "solver_options": {}},
     }
-    if intlim:
-        spec["family"] = family + "+int_limits"
-        spec["weights"] = [rng.choice([0.5, 2.5, 10.0, 0.1, 4.0, 3.0]) for _ in range(nk)]
-        if rng.random() < 0.5:
-            # limits not enforced on evaluation; the start is inside, and the optimizer clips its steps to the limits
-            spec["opts"]["check_limits"] = False
     if tiny:
         spec["tweights"] = [1e-13] * nt
         spec["tols"] = [1e-10] * nt
